@@ -389,13 +389,15 @@ func (p *Package) ContentTypes() (*ContentTypes, error) {
 		switch {
 		case k.Is(NsCT, "Default"):
 			ext := strings.ToLower(k.Attr("", "Extension"))
-			if _, dup := ct.Defaults[ext]; dup {
+			// two equivalent Default entries are reported only when they disagree:
+			// then a part of that extension has no single content type
+			if prev, dup := ct.Defaults[ext]; dup && prev != k.Attr("", "ContentType") {
 				ct.DupDef = append(ct.DupDef, ext)
 			}
 			ct.Defaults[ext] = k.Attr("", "ContentType")
 		case k.Is(NsCT, "Override"):
 			pn := k.Attr("", "PartName")
-			if _, dup := ct.Overrides[pn]; dup {
+			if prev, dup := ct.Overrides[pn]; dup && prev != k.Attr("", "ContentType") {
 				ct.DupOvr = append(ct.DupOvr, pn)
 			}
 			ct.Overrides[pn] = k.Attr("", "ContentType")
